@@ -93,7 +93,9 @@ def build_page(rng, skel):
         kind = rng.choice(["-", "o", "x"])
         ident = rng.random() < 0.3
         zid = "24%02d%02d#%02d" % (1 + len(expected) % 12, 1 + len(expected) % 28, len(expected) % 90 + 10) if ident else None
-        words = ([zid] if zid else []) + ["probe"] + own["words"]
+        # a modify-date stamp without ZID (earlier than every date a scope can supply): the create date is still inherited
+        stamp = ["000101"] if (not zid and rng.random() < 0.2) else []
+        words = stamp + ([zid] if zid else []) + ["probe"] + own["words"]
         chain = [title] + [d for _, d in stack]
         exp = {k: sorted(set(sum([c[k] for c in chain], []) + own[k])) for k in ("areas", "contexts", "people", "projects", "links")}
         props = {}
